@@ -63,7 +63,12 @@ def sync_nanocore():
             continue
         t = open(sp).read().replace('From Stdlib Require', 'From Coq Require')
         t = re.sub(r'From NanoCore Require', 'From NV.NanoCore Require', t)
-        t = '(* GENERATED: copy of /repo/formal/%s (From Stdlib -> From Coq) -- do not edit *)\n' % f + t
+        # the repository's files carry their own extraction directives (nat => int, Z => big_int, ...): they are not part of
+        # the semantics and must not leak into this framework's extraction (ExtrOcamlBasic only): comment them out
+        t = re.sub(r'^(From Coq Require (Extraction|ExtrOcaml\w+)\.)$', r'(* \1 *)', t, flags=re.M)
+        t = re.sub(r'^(Extraction Language OCaml\.)$', r'(* \1 *)', t, flags=re.M)
+        t = re.sub(r'^(Extract (Inductive|Constant|Inlined Constant)[^.]*?\.)\s*$', lambda m: '(* ' + m.group(1).replace('(*', '( *').replace('*)', '* )') + ' *)', t, flags=re.M | re.S)
+        t = '(* GENERATED: copy of /repo/formal/%s (From Stdlib -> From Coq; extraction directives commented out) -- do not edit *)\n' % f + t
         _wic(os.path.join(dst, f), t)
 
 
